@@ -359,9 +359,12 @@ class FileBufferedCollection(BufferedCollection):
                 collection._flush(force=force)
             except (OSError, MetadataError) as err:
                 issues[collection._filename] = err
-        if not issues:
-            cls._buffered_collections = remaining_collections
-        else:
+        # Put back the collections that remain buffered. Other threads may have
+        # registered collections while this flush was in progress, so the
+        # registry must be updated (under the lock), never replaced.
+        with cls._BUFFER_LOCK:
+            cls._buffered_collections.update(remaining_collections)
+        if issues:
             raise BufferedError(issues)
 
     @classmethod
